@@ -389,6 +389,10 @@ def _late_bound_constants(ctx):
     from .c05 import r7_late_bound_constants
     r7_late_bound_constants(ctx)   # format constants are read through cls / self so that subclass formats keep their own
 
+def _delta_arrays(ctx):
+    from ..idioms import check_delta_arrays
+    check_delta_arrays(ctx, ["bionumpy.io.strops", "bionumpy.io.file_buffers", "bionumpy.io.delimited_buffers", "bionumpy.io.named_text_buffer", "bionumpy.io.one_line_buffer"], "C02-R12")
+
 RULES = [
     ("C02-R1", r1_parser_exhaustive),
     ("C02-R2", r2_coordinate_shift),
@@ -402,4 +406,5 @@ RULES = [
     ("C02-R9", _number_parsing),
     ("C02-R10", _selection_tables),
     ("C02-R11", _late_bound_constants),
+    ("C02-R12", _delta_arrays),
 ]
